@@ -246,4 +246,340 @@ theorem plain_binding (H : Bytes → Bytes) (h32 : ∀ x, (H x).length = 32)
         · subst hLe; exact ⟨c1, c2⟩
         · exact (hnosig L (by omega) hL1 hL2).elim
 
+/-! ### pruned branches -/
+
+/-- the level mask a pruned-branch cell declares in its second data byte -/
+def pmaskOf (bits : Bits) : Nat := natOfBits ((bits.drop 8).take 8)
+
+/-- a pruned branch answers level `l` with a STORED hash (that of the subtree it stands for), not with its own -/
+def StoredAt (kind : Int) (bits : Bits) (l : Nat) : Prop :=
+  kind = 1 ∧ Spec.popcount (pmaskOf bits % 2 ^ l) ≠ Spec.popcount (pmaskOf bits)
+
+theorem spopcount_mod_le (m l : Nat) : Spec.popcount (m % 2 ^ l) ≤ Spec.popcount m := by
+  rw [← popcount_eq, ← popcount_eq]
+  by_cases h : l ≤ bitLength m
+  · have := popcount_mod_mono m h
+    rwa [mod_ge_bitLength m (Nat.le_refl _)] at this
+  · rw [mod_ge_bitLength m (by omega)]
+    exact Nat.le_refl _
+
+theorem nodeMask_nil (k : Spec.Kind) (bits : Bits) (np : k ≠ .pruned) : Spec.nodeMask k bits [] = 0 := by
+  cases k <;> first | exact absurd rfl np | simp [Spec.nodeMask]
+
+/-- the representation of a pruned branch (mask ≥ 1) is never a representation of a non-pruned cell -/
+theorem pruned_vs_plain (H : Bytes → Bytes) (bits : Bits) (m : Nat) (hm : 1 ≤ m) (k : Spec.Kind) (b : Bits)
+    (ss : List Spec.SInfo) (L : Nat) (np : k ≠ .pruned) (sh : KindShape k ss.length)
+    (h : prunedRepr bits m = reprAt H k b ss (Spec.nodeMask k b ss) L) : False := by
+  simp only [prunedRepr, reprAt, List.cons_append, List.nil_append, List.cons.injEq] at h
+  obtain ⟨hn, _, hmm⟩ := d1_inj _ _ _ _ _ _ (by omega) sh.1 h.1
+  have : ss = [] := List.eq_nil_of_length_eq_zero hn.symm
+  subst this
+  rw [nodeMask_nil k b np, Nat.zero_mod] at hmm
+  omega
+
+/-- two pruned branches with the same representation are the same cell -/
+theorem pruned_vs_pruned (bP bT : Bits) (mP mT : Nat) (h : prunedRepr bP mP = prunedRepr bT mT) : bP = bT := by
+  simp only [prunedRepr, List.cons_append, List.nil_append, List.cons.injEq] at h
+  exact dataBytes_inj bP bT h.2.1 h.2.2
+
+/-! ### trees -/
+
+mutual
+  /-- the shape every cell of a valid bag has: at most four references; a pruned branch has none, a non-zero level
+  mask and all the hashes it declares (`16 + 256·popcount(mask)` bits at least); a library cell has no reference, a
+  Merkle proof one, a Merkle update two. -/
+  def Shape : Cell → Prop
+    | .mk kind bits refs =>
+      refs.length ≤ 4 ∧
+      (kind = -1 ∨
+        (kind = 1 ∧ refs = [] ∧ 1 ≤ pmaskOf bits ∧ 16 + 256 * Spec.popcount (pmaskOf bits) ≤ bits.length) ∨
+        (kind = 2 ∧ refs = []) ∨ (kind = 3 ∧ refs.length = 1) ∨ (kind = 4 ∧ refs.length = 2)) ∧
+      Shapes refs
+  def Shapes : List Cell → Prop
+    | [] => True
+    | c :: cs => Shape c ∧ Shapes cs
+end
+
+mutual
+  /-- ALL representations occurring in a tree: of every non-pruned cell the representation at each of its
+  significant levels, of every pruned branch its own representation.  A finite list; the binding theorem assumes that
+  `H` does not collide between `reprs p` and `reprs t`. -/
+  def reprs (H : Bytes → Bytes) : Cell → List Bytes
+    | .mk kind bits refs =>
+      (match kindOf kind, specInfos H refs with
+        | some k, some ss =>
+          if k = .pruned then [prunedRepr bits (Spec.nodeMask k bits ss)]
+          else ((List.range (bitLength (Spec.nodeMask k bits ss) + 1)).filter (sigB (Spec.nodeMask k bits ss))).map
+                  (reprAt H k bits ss (Spec.nodeMask k bits ss))
+        | _, _ => []) ++ reprss H refs
+  def reprss (H : Bytes → Bytes) : List Cell → List Bytes
+    | [] => []
+    | c :: cs => reprs H c ++ reprss H cs
+end
+
+/-- μ of a cell type code -/
+def muOf (kind : Int) : Nat := if kind = 3 ∨ kind = 4 then 1 else 0
+
+mutual
+  /-- `Agree H l p t`: `p` and `t` have the same level-`l` hash, and
+  * `p` is a pruned branch that stores that hash (it stands for `t` at this level), or `t` is one, or
+  * `p` and `t` are the same cell: same type, same BIT STRING, same number of references, and for every level
+    `L ≤ l` at which the cell's hash is (re)computed, the children pairwise `Agree` at level `L + μ`. -/
+  def Agree (H : Bytes → Bytes) : Nat → Cell → Cell → Prop
+    | l, .mk kp bp rp, .mk kt bt rt =>
+      (∃ sp st, specInfo H (.mk kp bp rp) = some sp ∧ specInfo H (.mk kt bt rt) = some st ∧ sp.hashAt l = st.hashAt l) ∧
+      (StoredAt kp bp l ∨ StoredAt kt bt l ∨
+        (kp = kt ∧ bp = bt ∧ rp.length = rt.length ∧
+          ∀ sp, specInfo H (.mk kp bp rp) = some sp → ∀ L, L ≤ l → sigB sp.mask L = true →
+            Agrees H (L + muOf kp) rp rt))
+  def Agrees (H : Bytes → Bytes) : Nat → List Cell → List Cell → Prop
+    | _, [], ts => ts = []
+    | l, p :: ps, ts => ∃ t ts', ts = t :: ts' ∧ Agree H l p t ∧ Agrees H l ps ts'
+end
+
+theorem muOf_eq {kind : Int} {k : Spec.Kind} (h : kindOf kind = some k) : muOf kind = k.mu := by
+  have := kindCode_of_kindOf h
+  subst this
+  cases k <;> simp [muOf, kindCode, Spec.Kind.mu]
+
+theorem specInfo_mk (H : Bytes → Bytes) (kind : Int) (bits : Bits) (refs : List Cell) (s : Spec.SInfo)
+    (h : specInfo H (.mk kind bits refs) = some s) :
+    ∃ k ss, kindOf kind = some k ∧ specInfos H refs = some ss ∧ s = Spec.node H k bits ss := by
+  simp only [specInfo, Option.bind_eq_bind] at h
+  cases hk : kindOf kind with
+  | none => rw [hk] at h; cases h
+  | some k =>
+    cases hss : specInfos H refs with
+    | none => rw [hk, hss] at h; cases h
+    | some ss =>
+      rw [hk, hss] at h
+      simp only [Option.bind_some, Option.pure_def, Option.some.injEq] at h
+      exact ⟨k, ss, rfl, rfl, h.symm⟩
+
+theorem specInfos_cons (H : Bytes → Bytes) (c : Cell) (cs : List Cell) (ss : List Spec.SInfo)
+    (h : specInfos H (c :: cs) = some ss) :
+    ∃ s ss0, specInfo H c = some s ∧ specInfos H cs = some ss0 ∧ ss = s :: ss0 := by
+  simp only [specInfos, Option.bind_eq_bind] at h
+  cases h1 : specInfo H c with
+  | none => rw [h1] at h; cases h
+  | some s =>
+    cases h2 : specInfos H cs with
+    | none => rw [h1, h2] at h; cases h
+    | some ss0 =>
+      rw [h1, h2] at h
+      simp only [Option.bind_some, Option.pure_def, Option.some.injEq] at h
+      exact ⟨s, ss0, rfl, rfl, h.symm⟩
+
+theorem kindOf_cases {kind : Int} {k : Spec.Kind} (h : kindOf kind = some k) :
+    (kind = -1 ∧ k = .ordinary) ∨ (kind = 1 ∧ k = .pruned) ∨ (kind = 2 ∧ k = .library) ∨
+    (kind = 3 ∧ k = .merkleProof) ∨ (kind = 4 ∧ k = .merkleUpdate) := by
+  have := kindCode_of_kindOf h
+  subst this
+  cases k <;> simp [kindCode]
+
+theorem shape_kind (H : Bytes → Bytes) (kind : Int) (bits : Bits) (refs : List Cell) (k : Spec.Kind) (ss : List Spec.SInfo)
+    (sh : Shape (.mk kind bits refs)) (hk : kindOf kind = some k) (hss : specInfos H refs = some ss) :
+    KindShape k ss.length := by
+  rw [Shape] at sh
+  obtain ⟨h4, hc, _⟩ := sh
+  rw [specInfos_length H refs ss hss]
+  rcases kindOf_cases hk with ⟨e, rfl⟩ | ⟨e, rfl⟩ | ⟨e, rfl⟩ | ⟨e, rfl⟩ | ⟨e, rfl⟩ <;> subst e <;>
+    refine ⟨h4, ?_, ?_, ?_, ?_⟩ <;> intro hx <;> first
+      | exact absurd hx (by decide)
+      | (simp at hc; simp [hc])
+      | (simp at hc; omega)
+
+theorem shape_pruned (kind : Int) (bits : Bits) (refs : List Cell) (sh : Shape (.mk kind bits refs)) (hk : kind = 1) :
+    refs = [] ∧ 1 ≤ pmaskOf bits ∧ 16 + 256 * Spec.popcount (pmaskOf bits) ≤ bits.length := by
+  rw [Shape] at sh
+  obtain ⟨_, hc, _⟩ := sh
+  subst hk
+  rcases hc with c | c | c | c | c
+  · exact absurd c (by decide)
+  · exact c.2
+  · exact absurd c.1 (by decide)
+  · exact absurd c.1 (by decide)
+  · exact absurd c.1 (by decide)
+
+theorem node_pruned_hashAt (H : Bytes → Bytes) (bits : Bits) (ss : List Spec.SInfo) (l : Nat) :
+    (Spec.node H .pruned bits ss).hashAt l =
+      if Spec.popcount (pmaskOf bits % 2 ^ l) = Spec.popcount (pmaskOf bits) then H (prunedRepr bits (pmaskOf bits))
+      else ((Spec.dataBytes bits).take (2 + 32 * (Spec.popcount (pmaskOf bits % 2 ^ l) + 1))).drop
+              (2 + 32 * Spec.popcount (pmaskOf bits % 2 ^ l)) := rfl
+
+/-- every hash a shaped cell reports has 32 bytes -/
+theorem hashAt_len (H : Bytes → Bytes) (h32 : ∀ x, (H x).length = 32) (kind : Int) (bits : Bits) (refs : List Cell)
+    (s : Spec.SInfo) (sh : Shape (.mk kind bits refs)) (hs : specInfo H (.mk kind bits refs) = some s) :
+    ∀ l, (s.hashAt l).length = 32 := by
+  obtain ⟨k, ss, hk, hss, rfl⟩ := specInfo_mk H kind bits refs s hs
+  intro l
+  by_cases hp : k = .pruned
+  · subst hp
+    have hk1 : kind = 1 := (kindCode_of_kindOf hk).symm
+    obtain ⟨_, _, hlen⟩ := shape_pruned kind bits refs sh hk1
+    rw [node_pruned_hashAt]
+    split
+    · exact h32 _
+    · rename_i hne
+      have hle := spopcount_mod_le (pmaskOf bits) l
+      have hdl := length_dataBytes bits
+      simp only [List.length_drop, List.length_take]
+      omega
+  · rw [node_plain H k bits ss hp]
+    exact plainHashAt_len H h32 k bits ss _ l
+
+theorem hashes_len (H : Bytes → Bytes) (h32 : ∀ x, (H x).length = 32) : ∀ (cs : List Cell) (ss : List Spec.SInfo),
+    Shapes cs → specInfos H cs = some ss → ∀ c ∈ ss, ∀ l, (c.hashAt l).length = 32 := by
+  intro cs
+  induction cs with
+  | nil => intro ss _ hs; simp only [specInfos, Option.some.injEq] at hs; subst hs; simp
+  | cons c cs ih =>
+    intro ss sh hs
+    obtain ⟨s, ss0, h1, h2, rfl⟩ := specInfos_cons H c cs ss hs
+    rw [Shapes] at sh
+    intro x hx
+    rcases List.mem_cons.mp hx with rfl | hx
+    · cases c with
+      | mk kind bits refs => exact hashAt_len H h32 kind bits refs x sh.1 h1
+    · exact ih ss0 sh.2 h2 x hx
+
+theorem reprs_root_plain (H : Bytes → Bytes) (kind : Int) (bits : Bits) (refs : List Cell) (k : Spec.Kind)
+    (ss : List Spec.SInfo) (hk : kindOf kind = some k) (hss : specInfos H refs = some ss) (hp : k ≠ .pruned)
+    (L : Nat) (hs : sigB (Spec.nodeMask k bits ss) L = true) :
+    reprAt H k bits ss (Spec.nodeMask k bits ss) L ∈ reprs H (.mk kind bits refs) := by
+  rw [reprs]
+  apply List.mem_append_left
+  simp only [hk, hss, hp, if_false]
+  apply List.mem_map_of_mem
+  rw [List.mem_filter]
+  refine ⟨?_, hs⟩
+  rw [List.mem_range]
+  cases L with
+  | zero => omega
+  | succ j =>
+    rw [sigB_succ] at hs
+    apply Classical.byContradiction
+    intro hc
+    have := testBit_ge_bitLength (Spec.nodeMask k bits ss) (l := j) (by omega)
+    rw [this] at hs; cases hs
+
+theorem reprs_root_pruned (H : Bytes → Bytes) (kind : Int) (bits : Bits) (refs : List Cell)
+    (ss : List Spec.SInfo) (hk : kindOf kind = some .pruned) (hss : specInfos H refs = some ss) :
+    prunedRepr bits (pmaskOf bits) ∈ reprs H (.mk kind bits refs) := by
+  rw [reprs]
+  apply List.mem_append_left
+  simp only [hk, hss, if_true]
+  exact List.mem_singleton.mpr rfl
+
+theorem reprs_kids (H : Bytes → Bytes) (kind : Int) (bits : Bits) (refs : List Cell) (x : Bytes)
+    (hx : x ∈ reprss H refs) : x ∈ reprs H (.mk kind bits refs) := by
+  rw [reprs]; exact List.mem_append_right _ hx
+
+mutual
+  /-- GENERAL BINDING, induction over the proof tree `p` (all levels, all cell types) -/
+  theorem binding_aux (H : Bytes → Bytes) (h32 : ∀ x, (H x).length = 32) :
+      ∀ (p t : Cell) (l : Nat) (sp st : Spec.SInfo), Shape p → Shape t → specInfo H p = some sp → specInfo H t = some st →
+        (∀ x y, x ∈ reprs H p → y ∈ reprs H t → H x = H y → x = y) → sp.hashAt l = st.hashAt l → Agree H l p t
+    | .mk kp bp rp, .mk kt bt rt, l, sp, st, shp, sht, hsp, hst, inj, hh => by
+      rw [Agree]
+      refine ⟨⟨sp, st, hsp, hst, hh⟩, ?_⟩
+      obtain ⟨kP, ssP, hkp, hssp, rfl⟩ := specInfo_mk H kp bp rp sp hsp
+      obtain ⟨kT, ssT, hkt, hsst, rfl⟩ := specInfo_mk H kt bt rt st hst
+      have kshP := shape_kind H kp bp rp kP ssP shp hkp hssp
+      have kshT := shape_kind H kt bt rt kT ssT sht hkt hsst
+      by_cases pP : kP = .pruned
+      · subst pP
+        have hkp1 : kp = 1 := (kindCode_of_kindOf hkp).symm
+        by_cases stP : Spec.popcount (pmaskOf bp % 2 ^ l) = Spec.popcount (pmaskOf bp)
+        · rw [node_pruned_hashAt, if_pos stP] at hh
+          by_cases pT : kT = .pruned
+          · subst pT
+            have hkt1 : kt = 1 := (kindCode_of_kindOf hkt).symm
+            by_cases stT : Spec.popcount (pmaskOf bt % 2 ^ l) = Spec.popcount (pmaskOf bt)
+            · rw [node_pruned_hashAt, if_pos stT] at hh
+              have hr := inj _ _ (reprs_root_pruned H kp bp rp ssP hkp hssp) (reprs_root_pruned H kt bt rt ssT hkt hsst) hh
+              have hb := pruned_vs_pruned bp bt _ _ hr
+              have hrp := (shape_pruned kp bp rp shp hkp1).1
+              have hrt := (shape_pruned kt bt rt sht hkt1).1
+              subst hrp; subst hrt
+              refine Or.inr (Or.inr ⟨by rw [hkp1, hkt1], hb, rfl, ?_⟩)
+              intro _ _ L _ _
+              rw [Agrees]
+            · exact Or.inr (Or.inl ⟨hkt1, stT⟩)
+          · exfalso
+            rw [node_plain H kT bt ssT pT] at hh
+            obtain ⟨L, _, sL, _, eL⟩ := plainHashAt_top H kT bt ssT (Spec.nodeMask kT bt ssT) l
+            simp only at hh
+            rw [eL] at hh
+            have hr := inj _ _ (reprs_root_pruned H kp bp rp ssP hkp hssp) (reprs_root_plain H kt bt rt kT ssT hkt hsst pT L sL) hh
+            exact pruned_vs_plain H bp _ (shape_pruned kp bp rp shp hkp1).2.1 kT bt ssT L pT kshT hr
+        · exact Or.inl ⟨hkp1, stP⟩
+      · by_cases pT : kT = .pruned
+        · subst pT
+          have hkt1 : kt = 1 := (kindCode_of_kindOf hkt).symm
+          by_cases stT : Spec.popcount (pmaskOf bt % 2 ^ l) = Spec.popcount (pmaskOf bt)
+          · exfalso
+            rw [node_pruned_hashAt, if_pos stT, node_plain H kP bp ssP pP] at hh
+            obtain ⟨L, _, sL, _, eL⟩ := plainHashAt_top H kP bp ssP (Spec.nodeMask kP bp ssP) l
+            simp only at hh
+            rw [eL] at hh
+            have hr := inj _ _ (reprs_root_plain H kp bp rp kP ssP hkp hssp pP L sL) (reprs_root_pruned H kt bt rt ssT hkt hsst) hh
+            exact pruned_vs_plain H bt _ (shape_pruned kt bt rt sht hkt1).2.1 kP bp ssP L pP kshP hr.symm
+          · exact Or.inr (Or.inl ⟨hkt1, stT⟩)
+        · refine Or.inr (Or.inr ?_)
+          have shp' := shp; have sht' := sht
+          rw [Shape] at shp' sht'
+          rw [node_plain H kP bp ssP pP, node_plain H kT bt ssT pT] at hh
+          simp only at hh
+          obtain ⟨ek, eb, en, _, hkids⟩ := plain_binding H h32 kP kT bp bt ssP ssT _ _ pP pT kshP kshT
+            (hashes_len H h32 rp ssP shp'.2.2 hssp) (hashes_len H h32 rt ssT sht'.2.2 hsst)
+            (fun Lp Lt s1 s2 he => inj _ _ (reprs_root_plain H kp bp rp kP ssP hkp hssp pP Lp s1)
+              (reprs_root_plain H kt bt rt kT ssT hkt hsst pT Lt s2) he) l hh
+          subst ek
+          refine ⟨?_, eb, ?_, ?_⟩
+          · rw [← kindCode_of_kindOf hkp, ← kindCode_of_kindOf hkt]
+          · rw [← specInfos_length H rp ssP hssp, ← specInfos_length H rt ssT hsst]; exact en
+          · intro sp' hsp' L hL hsig
+            rw [hsp] at hsp'
+            cases hsp'
+            rw [node_plain H kP bp ssP pP] at hsig
+            simp only at hsig
+            rw [muOf_eq hkp]
+            exact bindings_aux H h32 rp rt (L + kP.mu) ssP ssT shp'.2.2 sht'.2.2 hssp hsst
+              (fun x y hx hy => inj x y (reprs_kids H kp bp rp x hx) (reprs_kids H kt bt rt y hy)) (hkids L hL hsig).1
+  theorem bindings_aux (H : Bytes → Bytes) (h32 : ∀ x, (H x).length = 32) :
+      ∀ (ps ts : List Cell) (l : Nat) (sps sts : List Spec.SInfo), Shapes ps → Shapes ts →
+        specInfos H ps = some sps → specInfos H ts = some sts →
+        (∀ x y, x ∈ reprss H ps → y ∈ reprss H ts → H x = H y → x = y) →
+        sps.map (fun c => c.hashAt l) = sts.map (fun c => c.hashAt l) → Agrees H l ps ts
+    | [], ts, l, sps, sts, _, _, hsp, hst, _, hh => by
+      rw [Agrees]
+      simp only [specInfos, Option.some.injEq] at hsp
+      subst hsp
+      cases ts with
+      | nil => rfl
+      | cons t ts =>
+        obtain ⟨s, ss0, _, _, rfl⟩ := specInfos_cons H t ts sts hst
+        simp at hh
+    | p :: ps, ts, l, sps, sts, mp, mt, hsp, hst, inj, hh => by
+      rw [Agrees]
+      obtain ⟨sp, sps0, hp1, hp2, rfl⟩ := specInfos_cons H p ps sps hsp
+      cases ts with
+      | nil =>
+        simp only [specInfos, Option.some.injEq] at hst
+        subst hst
+        simp at hh
+      | cons t ts =>
+        obtain ⟨st, sts0, ht1, ht2, rfl⟩ := specInfos_cons H t ts sts hst
+        rw [Shapes] at mp mt
+        simp only [List.map_cons, List.cons.injEq] at hh
+        exact ⟨t, ts, rfl,
+          binding_aux H h32 p t l sp st mp.1 mt.1 hp1 ht1
+            (fun x y hx hy => inj x y (by rw [reprss]; exact List.mem_append_left _ hx)
+              (by rw [reprss]; exact List.mem_append_left _ hy)) hh.1,
+          bindings_aux H h32 ps ts l sps0 sts0 mp.2 mt.2 hp2 ht2
+            (fun x y hx hy => inj x y (by rw [reprss]; exact List.mem_append_right _ hx)
+              (by rw [reprss]; exact List.mem_append_right _ hy)) hh.2⟩
+end
+
 end TonVerif.Proofs.Binding
